@@ -452,6 +452,81 @@ def rule_nodetype(ctx, rep, prop_rule="R-NODETYPE"):
         rep.instance(prop_rule, "codebase", "src/", True, detail="no with_changes(operator=...) site")
 
 
+def rule_import_flag_reaches(ctx, rep, rule_id="R-IMPORT-FLAG-REACHES"):
+    rep.rule(
+        rule_id,
+        "where an import is scheduled under a flag (`if add_annotation: self.add_needed_import(...)`), every definition of that flag "
+        "reaches the guard: a later definition that does not read the flag (`flag = second_call()` instead of `flag = flag or ...`) "
+        "must not sit between a definition and the guard (constant-False initialisers excepted).  Otherwise the name emitted under "
+        "the first definition (an `Optional[...]` annotation) stays while its import is never added",
+        min_instances=1,
+    )
+    n = 0
+    for fn in ctx.prog.live_functions():
+        guards = []
+        for st in walk_no_nested(fn.node):
+            if isinstance(st, ast.If) and any(isinstance(c, ast.Call) and last_attr(c.func) == "add_needed_import" for b in st.body for c in ast.walk(b)):
+                flags = [x.id for x in ast.walk(st.test) if isinstance(x, ast.Name)]
+                for v in flags:
+                    guards.append((st, v))
+        if not guards:
+            continue
+        pm = {}
+        for p_ in ast.walk(fn.node):
+            for fld in ("body", "orelse", "finalbody"):
+                blk = getattr(p_, fld, None)
+                for c in (blk if isinstance(blk, list) else []):
+                    if isinstance(c, ast.AST):
+                        pm[id(c)] = (p_, fld)
+            for h in getattr(p_, "handlers", []) or []:
+                pm[id(h)] = (p_, "handler")
+            for cs in getattr(p_, "cases", []) or []:
+                pm[id(cs)] = (p_, "case")
+                for c in cs.body:
+                    pm[id(c)] = (cs, "body")
+
+        def branch_path(st):
+            out = []
+            cur = st
+            while id(cur) in pm:
+                par, fld = pm[id(cur)]
+                out.append((id(par), fld if not isinstance(cur, (ast.ExceptHandler, ast.match_case)) else f"{fld}:{id(cur)}"))
+                cur = par
+            return out
+
+        def exclusive(a, b):
+            pa, pb = dict(branch_path(a)), dict(branch_path(b))
+            return any(k in pb and pb[k] != f for k, f in pa.items())
+
+        for guard, v in guards:
+            if v in fn.params():
+                continue
+            defs = []
+            for st in walk_no_nested(fn.node):
+                if isinstance(st, (ast.Assign, ast.AnnAssign, ast.AugAssign)) and getattr(st, "value", None) is not None:
+                    tgs = st.targets if isinstance(st, ast.Assign) else [st.target]
+                    if any(isinstance(t, ast.Name) and t.id == v for tg in tgs for t in ast.walk(tg)):
+                        reads = isinstance(st, ast.AugAssign) or v in names_in(st.value)
+                        const_false = isinstance(st.value, ast.Constant) and not st.value.value
+                        defs.append((st, reads, const_false))
+            if not defs:
+                continue
+            n += 1
+            bad = None
+            for d, _r, cf in defs:
+                if cf or d.lineno >= guard.lineno:
+                    continue
+                for d2, reads2, _cf2 in defs:
+                    if d2 is d or reads2 or not (d.lineno < d2.lineno < guard.lineno) or exclusive(d, d2):
+                        continue
+                    bad = (d, d2)
+            rep.check(rule_id, fn.qname, fn.loc(bad[1]) if bad else fn.loc(guard), bad is None, f"flag:{v}",
+                      f"`{unparse(bad[1])[:60].splitlines()[0]}` replaces the flag `{v}` computed at line {fn.loc(bad[0]).split(':')[-1]} before the guard that schedules the import reads it: "
+                      "what the first computation emitted keeps its name, the import is dropped" if bad else "")
+    if n < 1:
+        raise AnalysisError("no import scheduled under a flag found (1 confirmed by hand: fix-mutable-params)")
+
+
 def check(ctx, rep):
     rep.explanation = (
         "Every code template a transformer emits by name is recovered with a constant/template evaluator (f-strings, constants, "
@@ -465,6 +540,7 @@ def check(ctx, rep):
     rule_alias_preserved(ctx, rep)
     rule_global_removal_scope(ctx, rep)
     rule_nodetype(ctx, rep)
+    rule_import_flag_reaches(ctx, rep)
     rep.not_covered += [
         "scope-aware reasoning about which assignments RemoveUnusedVariables may drop (depends on libcst scope metadata)",
         "names emitted through nodes built without a string template",
